@@ -1,14 +1,16 @@
 \* C07 with KickOldConnection in its two parts: locked section (KickBegin) and the I/O that follows
 \* (KickEnd = the kick command reached the old peer, its stream is closed), with logins, closes and
-\* further kick requests of the same client in between (3 connections pre-accepted, 2 clients).
+\* further kick requests of the same client in between (3 connections pre-accepted).
+\* VIEW view = state graph (exhaustive check, transition coverage); without it every operation
+\* history to the depth bound is a state of its own = all bounded histories (path-dependent faults).
 CONSTANTS
   Conn <- Conn3
-  Client <- Client2
+  Client <- @@CLIENT@@
   MaxNonce = 2
   MaxFail = 3
   MaxCtl = 0
   Faults = @@FAULTS@@
-  Ops = {"FirstLogin", "Login", "KickBegin", "Close", "Cloud"}
+  Ops = {"FirstLogin", "Login", "KickBegin", "Close"}
   Types = {"control"}
   PreAccept = TRUE
   Fixes = @@FIXES@@
@@ -17,6 +19,6 @@ CONSTANTS
   Emit = @@EMIT@@
 INIT Init
 NEXT Next
-VIEW view
+@@VIEW@@
 INVARIANTS TypeOK OnlyProven C07Inv C07One
 CHECK_DEADLOCK FALSE
